@@ -2712,6 +2712,16 @@ class Session(_SessionClassMethods, EventTarget):
         """
 
         all_states = self.identity_map.all_states() + list(self._new)
+        if self._transaction is not None:
+            # objects whose DELETE was flushed live only in the transaction's
+            # _deleted collection (see _expunge_states)
+            seen = set(all_states)
+            for trans in self._transaction._iterate_self_and_parents():
+                for state in list(trans._deleted):
+                    if state not in seen:
+                        seen.add(state)
+                        all_states.append(state)
+                trans._deleted.clear()
         self.identity_map._kill()
         self.identity_map = identity._WeakInstanceDict()
         self._new = {}
